@@ -39,7 +39,7 @@ def dispatch (ws : List String) : String :=
     else if e == "hdr" then H3.Drv.C12.handle ws
     else if e == "iso" then H3.Drv.C07.handle ws
     else if e == "wt" || e == "wtj" then H3.Drv.C19.handle ws
-    else if e == "ctl" then H3.Drv.C04.handle ws
+    else if e == "ctl" || e == "ctlrfc" then H3.Drv.C04.handle ws
     else if e == "flt" || e == "fltj" || e == "flt5" || e == "fltj5" then H3.Drv.Fault.handle ws
     else if e == "goaway" || e == "goawayj" then H3.Drv.C08.handle ws
     else if e == "drain" then H3.Drv.C09.handle ws
